@@ -6,7 +6,7 @@ import ast
 
 from ..report import Cx, Ob, describe, obligation
 from ..rules import API, CONV, CURIE_SIDE, URI_SIDE, Prov, _container_fields, fewer_than_two, guard_atoms, pair_compare_cover, where
-from ..summ import describe_path
+from ..summ import Ctx, describe_path
 from ..terms import callee_name, is_const, op, show, subterms
 
 describe(
@@ -52,6 +52,7 @@ def d1(cx: Cx, ob: Ob) -> None:
         return
     # what is stored as self.records
     stored = [ev.b for ev, _ in s.distinct_events("store") if ev.a == ("attr", me, "records")]
+    decided_elsewhere: set = set()
     for cls, (fn, call_t, ctx) in dets.items():
         line = ctx.path.out[2]
         ob.site(f"{where(init, line)} {init.qualname}", f"raise {cls}({show(call_t)[:50]})")
@@ -64,11 +65,17 @@ def d1(cx: Cx, ob: Ob) -> None:
         def _same(a, b):
             return a == b or _strip_views(a) == _strip_views(b)
 
-        if fn is not None and stored and not (call_t[2] and _same(call_t[2][0], stored[0])):
+        if fn is not None and stored and not (call_t[2] and (call_t[2][0] == ("attr", me, "records") or any(_same(call_t[2][0], x) for x in stored))):
             ob.violate(init.qualname, where(init, line), f"the {cls} detector runs on `{show(call_t[2][0])[:50] if call_t[2] else '?'}`, not on the record list the converter keeps (`{show(stored[0])[:50]}`)", detail=f"detector-arg:{cls}")
         # raised exactly when the detector result is non-empty
         last = [pol for a, pol in atoms if a == call_t]
-        if not last or last[-1] is not True:
+        if not last:
+            # the raise is decided by something other than the detector's own result (a cheaper pre-test that is
+            # meant to be equivalent); whether it is equivalent is not a question of shape
+            extra = [a for a, pol in atoms if not (op(a) == "param" and a[1] == "strict")]
+            ob.undecide(f"{cls} is raised under `{show(extra[-1])[:60] if extra else '?'}`, not under the result of its detector: equivalence of the two tests is not decided")
+            decided_elsewhere.add(cls)
+        elif last[-1] is not True:
             ob.violate(init.qualname, where(init, line), f"{cls} is not raised exactly when its detector reports duplicates", witness=describe_path(ctx), detail=f"raise-guard:{cls}")
     sp = init.param("strict")
     if sp is None or not (isinstance(sp.default, ast.Constant) and sp.default.value is True):
@@ -76,14 +83,33 @@ def d1(cx: Cx, ob: Ob) -> None:
     uri_call = dets["DuplicateURIPrefixes"][1]
     pre_call = dets["DuplicatePrefixes"][1]
     pctx = dets["DuplicatePrefixes"][2]
-    if not any(a == uri_call and pol is False for a, pol in guard_atoms(pctx.guards)):
+    from ..rules import _strip_views as _sv
+
+    def same_det(a, ref):
+        """The same detector applied to (a view of) the record list the converter keeps; a helper that orders the
+        records has one path per outcome, so the argument term differs between paths."""
+        if a == ref:
+            return True
+        if not (op(a) == "call" and op(ref) == "call" and a[1] == ref[1] and op(a[1]) == "func" and a[2] and ref[2] and a[3] == ref[3]):
+            return False
+        return a[2][0] == ("attr", me, "records") or any(_sv(a[2][0]) == _sv(x) or a[2][0] == x for x in stored)
+
+    if decided_elsewhere:
+        return
+    if not any(same_det(a, uri_call) and pol is False for a, pol in guard_atoms(pctx.guards)):
         ob.violate(init.qualname, where(init, pctx.path.out[2]), "DuplicatePrefixes can be raised before the URI-prefix clashes have been checked (URI clashes must be reported first)", witness=describe_path(pctx), detail="order")
-    # domination of index building
+    # domination of index building: a path of __init__ that COMPLETES under strict (and so hands out a converter)
+    # has passed both detectors with an empty result.  A store made before the checks on a path that then raises
+    # is unobservable - the object is never handed out.
     n = 0
-    for ev, ctx in s.events("store"):
-        if not (op(ev.a) == "attr" and ev.a[1] == me):
+    for path in s.paths:
+        if path.out is not None and path.out[0] == "raise":
             continue
-        atoms = guard_atoms(ctx.guards)
+        stores = [ev for ev in path.events if ev.kind == "store" and op(ev.a) == "attr" and ev.a[1] == me]
+        if not stores:
+            continue
+        gl = [ev for ev in path.events if ev.kind in ("guard", "except")]
+        atoms = guard_atoms(gl)
         if any(op(a) == "param" and a[1] == "strict" and pol is False for a, pol in atoms):
             continue
         recs_arg = uri_call[2][0] if uri_call[2] else None
@@ -92,21 +118,36 @@ def d1(cx: Cx, ob: Ob) -> None:
             continue
         # a false conjunction `strict and <two or more records>`: either way no check is needed
         exempt = False
-        for g in ctx.guards:
+        for g in gl:
             if g.kind == "guard" and op(g.a) == "and" and g.b is False:
                 if all((op(x) == "param" and x[1] == "strict") or fewer_than_two(x, False, recs_arg) is not None for x in g.a[1]):
                     exempt = True
         if exempt:
             continue
-        n += 1
+        n += len(stores)
         passed = {a for a, pol in atoms if pol is False}
         for name, c in (("URI", uri_call), ("prefix", pre_call)):
-            if c not in passed:
-                ob.violate(init.qualname, where(init, ev.line), f"self.{ev.a[2]} is assigned on a strict path that has not passed the {name} duplicate check", witness=describe_path(ctx), detail=f"dominate:{name}")
+            if not any(same_det(a, c) for a in passed):
+                ob.violate(init.qualname, where(init, stores[-1].line), f"a strict path of __init__ completes (self.{stores[-1].a[2]} is assigned) without having passed the {name} duplicate check", witness=describe_path(Ctx(tuple(gl), (), (), path, len(path.events))), detail=f"dominate:{name}")
     if n:
         ob.site(f"{init.where} {init.qualname}", f"{n} state assignments dominated by both checks")
     else:
         ob.undecide("no state assignment found on the strict path of __init__")
+
+
+def _order_views(inner):
+    """Strip wrappers that keep every element of a collection (order-only views, full copies)."""
+    while True:
+        if op(inner) == "call" and inner[1] in (("builtin", "sorted"), ("builtin", "list"), ("builtin", "tuple")) and inner[2]:
+            inner = inner[2][0]  # order-only wrappers keep the collection
+        elif op(inner) in ("list", "tuple") and len(inner[1]) == 1 and op(inner[1][0]) == "star":
+            inner = inner[1][0][1]  # [*records]
+        elif op(inner) == "new" and len(inner) > 4 and op(inner[4]) in ("list", "tuple") and len(inner[4][1]) == 1 and op(inner[4][1][0]) == "star":
+            inner = inner[4][1][0][1]  # own = [*records]; own.sort(...)
+        elif op(inner) == "slice" and is_const(inner[2], None) and is_const(inner[3], None):
+            inner = inner[1]
+        else:
+            return inner
 
 
 def _pair_mode(prov: Prov, s) -> tuple[str, tuple | None, tuple | None, str]:
@@ -114,6 +155,8 @@ def _pair_mode(prov: Prov, s) -> tuple[str, tuple | None, tuple | None, str]:
     for bid, (it, path) in prov.binders.items():
         if op(it) == "call" and op(it[1]) == "ext":
             name = it[1][1]
+            if it[2] and not any(op(x) == "param" for x in subterms(it[2][0])):
+                continue  # pairs of something derived (a group of equal names, a bucket), not of the records handed in
             if name == "itertools.combinations" and len(it[2]) == 2 and is_const(it[2][1], 2):
                 return "all", None, None, "itertools.combinations(records, 2)"
             if name == "itertools.combinations" and len(it[2]) == 2:
@@ -134,6 +177,119 @@ def _record_bvs(prov: Prov) -> list[tuple]:
     for bid, (it, path) in prov.binders.items():
         pass
     return out
+
+
+def _conditional_cover(cx: Cx, ob: Ob, cls: str, fn, s, prov: Prov, side: set) -> None:
+    """A detector that takes a SHORTCUT for some pairs of records (compares fewer fields on one arm of a test)
+    is complete only if that arm is taken when the skipped lists are known to be empty - for both records."""
+    from ..rules import LISTS
+
+    need = {(f, g) for f in side for g in side}
+    for lp, lctx in s.walk():
+        if lp.kind != "loop" or not (op(lp.b) == "call" and lp.b[1] == ("ext", "itertools.combinations")) or not lp.body:
+            continue
+        src = lp.b[2][0]
+        flags_param = None
+        if op(src) == "call" and src[1] == ("builtin", "zip") and len(src[2]) == 2 and op(src[2][0]) == "param":
+            flags_param = src[2][0][1]
+        # the record terms and (optionally) their flag terms from the loop target ((f1, r1), (f2, r2)) or (r1, r2)
+        recs, flag_of = [], {}
+        tg = lp.a
+        if op(tg) == "tuple" and len(tg[1]) == 2:
+            for part in tg[1]:
+                if op(part) == "tuple" and len(part[1]) == 2 and flags_param:
+                    flag_of[part[1][0]] = part[1][1]
+                    recs.append(part[1][1])
+                else:
+                    recs.append(part)
+        if len(recs) != 2:
+            continue
+        flag_expr = _caller_flag_expr(cx, fn, flags_param) if flags_param else None
+        paths_cover = []
+        for p in lp.body:
+            terms = [t for ev in p.events for t in (ev.a, ev.b) if isinstance(t, tuple)]
+            comps = pair_compare_cover(prov, terms)
+            pairs = {(x[1], y[1]) if x[0] == recs[0] else (y[1], x[1]) for x, y, _, _ in comps if {x[0], y[0]} == set(recs)}
+            pairs |= {(b, a) for a, b in pairs if (a, b) in {(f, f) for f in side}}
+            empty = set()  # (record, list field) proven empty on this path
+            opaque = False
+            for g in p.events:
+                if g.kind != "guard" or g.b is not False:
+                    continue
+                if op(g.a) == "attr" and g.a[1] in recs and g.a[2] in LISTS:
+                    empty.add((g.a[1], g.a[2]))
+                elif g.a in flag_of:
+                    if flag_expr is None:
+                        opaque = True
+                    else:
+                        var, e = flag_expr
+                        leaves = []
+
+                        def walk(t):
+                            if op(t) == "or":
+                                for x in t[1]:
+                                    walk(x)
+                            elif op(t) == "call" and t[1] == ("builtin", "bool") and len(t[2]) == 1:
+                                walk(t[2][0])
+                            elif op(t) == "truth":
+                                walk(t[1])
+                            else:
+                                leaves.append(t)
+
+                        walk(e)
+                        for lf in leaves:
+                            if op(lf) == "attr" and lf[1] == var and lf[2] in LISTS:
+                                empty.add((flag_of[g.a], lf[2]))
+            if not pairs:
+                continue
+            missing = {(f, g_) for f, g_ in need - pairs if not ((f in LISTS and (recs[0], f) in empty) or (g_ in LISTS and (recs[1], g_) in empty))}
+            paths_cover.append((p, pairs, missing, opaque))
+        if len(paths_cover) < 2:
+            continue  # no alternative arms: the unconditional cover check below decides
+        for p, pairs, missing, opaque in paths_cover:
+            if not missing:
+                continue
+            gl = [g.line for g in p.events if g.kind == "guard"]
+            if opaque:
+                ob.undecide(f"the {cls} detector takes a shortcut on a flag computed by its caller; which lists are empty then is not established")
+                continue
+            ob.violate(
+                fn.qualname,
+                where(fn, gl[-1] if gl else lp.line),
+                f"the {cls} detector compares only {sorted(pairs)} for some pairs of records (a shortcut arm) without knowing that the skipped lists {sorted({x for pr in missing for x in pr if x in LISTS})} are empty for both records: clashes through them go undetected",
+                witness="two records without CURIE prefix synonyms that share a URI prefix synonym",
+                detail="conditional-cover",
+            )
+
+
+def _caller_flag_expr(cx: Cx, fn, pname: str):
+    """The per-record expression a caller computes the flags from: ``[E(r) for r in records]`` passed for ``pname``
+    together with the same ``records``: (loop variable, E).  None if there is no unique such caller."""
+    names = [q.name for q in fn.params]
+    if pname not in names:
+        return None
+    idx = names.index(pname)
+    found = []
+    for g in cx.model.functions.values():
+        if g is fn:
+            continue
+        import ast as _ast
+
+        if not any(isinstance(n, _ast.Name) and n.id == fn.name for n in _ast.walk(g.node)):
+            continue
+        gs = cx.summary(g)
+        for c, ev, ctx in gs.calls(fn.name):
+            arg = c[2][idx] if len(c[2]) > idx else dict(c[3]).get(pname)
+            recs_arg = c[2][0] if c[2] else None
+            if op(arg) == "new" and len(arg) > 4:
+                arg = arg[4]
+            if op(arg) == "comp" and arg[1] in ("list", "gen") and len(arg[3]) == 1 and not arg[3][0][2] and arg[3][0][1] == recs_arg:
+                found.append((arg[3][0][0], arg[2]))
+            else:
+                return None
+    if len({show(e) for _, e in found}) == 1:
+        return found[0]
+    return None
 
 
 def check_detector(cx: Cx, ob: Ob, cls: str, fn, side: set) -> None:
@@ -171,6 +327,7 @@ def check_detector(cx: Cx, ob: Ob, cls: str, fn, side: set) -> None:
         ob.violate(fn.qualname, fn.where, f"the {cls} detector enumerates {desc}", detail="pair-arity")
         return
     if mode == "all":
+        _conditional_cover(cx, ob, cls, fn, s, prov, side)
         pairs = set()
         cross = []
         for x, y, how, c in comps:
@@ -433,18 +590,13 @@ def d6(cx: Cx, ob: Ob) -> None:
         ob.site(f"{where(ctor, o[2])} {ctor.qualname}", f"raise {show(t)[:60]}")
         a = t[2][0] if t[2] else None
         want = "_get_duplicate_uri_prefixes" if t[1][1].endswith("DuplicateURIPrefixes") else "_get_duplicate_prefixes"
-        inner = a[2][0] if op(a) == "call" and a[2] else None
-        while True:
-            if op(inner) == "call" and inner[1] in (("builtin", "sorted"), ("builtin", "list"), ("builtin", "tuple")) and inner[2]:
-                inner = inner[2][0]  # order-only wrappers keep the collection
-            elif op(inner) in ("list", "tuple") and len(inner[1]) == 1 and op(inner[1][0]) == "star":
-                inner = inner[1][0][1]  # [*records]
-            elif op(inner) == "new" and op(inner[4]) in ("list", "tuple") and len(inner[4][1]) == 1 and op(inner[4][1][0]) == "star":
-                inner = inner[4][1][0][1]  # own = [*records]; own.sort(...)
-            elif op(inner) == "slice" and is_const(inner[2], None) and is_const(inner[3], None):
-                inner = inner[1]
-            else:
-                break
+        inner = _order_views(a[2][0] if op(a) == "call" and a[2] else None)
+        cme = ("param", ctor.self_name)
+        if inner == ("attr", cme, "records"):
+            # the list the constructor has already stored: what was stored is what is checked
+            kept = {_order_views(ev.b) for ev, _ in cs.distinct_events("store") if ev.a == ("attr", cme, "records")}
+            if kept == {("param", "records")}:
+                inner = ("param", "records")
         if not (op(a) == "call" and callee_name(a) == want and inner == ("param", "records")):
             ob.violate(ctor.qualname, where(ctor, o[2]), f"{t[1][1].rsplit('.', 1)[-1]} is raised with `{show(a)[:70]}`, not with the full result of {want}(records)", detail=f"raise-arg:{want}")
     if n < 2:
